@@ -108,8 +108,11 @@ fn make_span(k: usize, parent: &str, handles: &HashMap<usize, Vec<Span>>) -> Spa
 fn run_history(line: &str) -> String {
     let sh = Arc::new(Mutex::new(Shared::default()));
     let own: Dispatch = Dispatch::new(
-        tracing_subscriber::registry().with(Rec { is_a: true, sh: sh.clone() }).with(Rec { is_a: false, sh: sh.clone() }),
+        tracing_subscriber::registry().with(Rec { is_a: true, sh: sh.clone() }).with(Rec { is_a: false, sh: sh.clone() }).with(tracing_error::ErrorSubscriber::default()),
     );
+    // captured span traces (tracing-error): `st t k` captures on thread t, `sr k` reads it on THIS thread (which has no default
+    // collector at all), `sx t k` drops it
+    let traces: Arc<Mutex<HashMap<usize, tracing_error::SpanTrace>>> = Arc::new(Mutex::new(HashMap::new()));
     let handles: Arc<Mutex<HashMap<usize, Vec<Span>>>> = Arc::new(Mutex::new(HashMap::new()));
     let mut threads: Vec<(Sender<(Job, bool)>, Receiver<()>)> = Vec::new();
     let mut modes: Vec<bool> = Vec::new();
@@ -134,6 +137,7 @@ fn run_history(line: &str) -> String {
         let thread: usize = match t[0] { "cl" | "sc" | "lk" => 0, _ => t[1].parse().unwrap() };
         ensure(&mut threads, &mut modes, thread);
         let hs = handles.clone();
+        let trs = traces.clone();
         let shc = sh.clone();
         let ownc = own.clone();
         let args: Vec<String> = t.iter().map(|s| s.to_string()).collect();
@@ -175,11 +179,25 @@ fn run_history(line: &str) -> String {
                         }
                     }
                 }
+                "st" => { let k: usize = a[2].parse().unwrap(); let tr = tracing_error::SpanTrace::capture(); trs.lock().unwrap().insert(k, tr); }
+                "sx" => { let k: usize = a[2].parse().unwrap(); let tr = trs.lock().unwrap().remove(&k); drop(tr); }
                 "pg" => {
                     // a REAL `Entered` guard (Span::enter) dropped by a panic that unwinds through it and is caught: the same
                     // enter / exit / release as `en` followed by `ex`, the exit happening while the thread is panicking
                     let j: usize = a[2].parse().unwrap();
                     let c = hs.lock().unwrap().get(&j).and_then(|v| v.first().cloned());
+                    if let Some(c) = c {
+                        let _ = std::panic::catch_unwind(std::panic::AssertUnwindSafe(move || {
+                            let _g = c.entered();
+                            std::panic::resume_unwind(Box::new("scripted"));
+                        }));
+                    }
+                }
+                "pgl" => {
+                    // the same with a handle MOVED into the guard (`span.entered()` on the program's own handle): if it is the
+                    // last one, the span closes while the thread is panicking
+                    let j: usize = a[2].parse().unwrap();
+                    let c = hs.lock().unwrap().get_mut(&j).and_then(|v| v.pop());
                     if let Some(c) = c {
                         let _ = std::panic::catch_unwind(std::panic::AssertUnwindSafe(move || {
                             let _g = c.entered();
@@ -219,6 +237,15 @@ fn run_history(line: &str) -> String {
                 _ => {}
             }
         });
+        if t[0] == "sr" {
+            let k: usize = t[1].parse().unwrap();
+            let mut chain: Vec<String> = Vec::new();
+            if let Some(tr) = traces.lock().unwrap().get(&k) {
+                tr.with_spans(|_m, fields| { chain.push(fields.trim_start_matches("k=").to_string()); true });
+            }
+            outs.push(format!("s:{}", chain.join(".")));
+            continue;
+        }
         if t[0] == "df" {
             modes[thread] = t[2] == "own";
             outs.push("-".into());
@@ -236,7 +263,7 @@ fn run_history(line: &str) -> String {
         items.extend(s.out.iter().cloned());
         let o = if items.is_empty() { "-".to_string() } else { items.join(",") };
         // (`pg` stands for two operations of the model: the enter, which reports nothing, and the exit)
-        outs.push(if t[0] == "pg" { format!("- {}", o) } else { o });
+        outs.push(if t[0] == "pg" { format!("- {}", o) } else if t[0] == "pgl" { format!("- - {}", o) } else { o });
     }
     // teardown: drop every handle (ignore what happens here)
     handles.lock().unwrap().clear();
